@@ -22,6 +22,16 @@ struct Elem {
     children: usize,
     /// text node spans directly inside (raw, still escaped)
     texts: Vec<(usize, usize)>,
+    attrs: Vec<Attr>,
+}
+
+#[derive(Debug, Clone)]
+struct Attr {
+    name: String,
+    /// whole attribute `name="value"` (without the blank before it)
+    span: (usize, usize),
+    /// the value between the quotes (raw)
+    value: (usize, usize),
 }
 
 /// R5: well-formedness + element structure via xmlparser. Err = not well-formed.
@@ -30,9 +40,18 @@ fn parse_tree(doc: &str) -> Result<Vec<Elem>, String> {
     let mut stack: Vec<usize> = Vec::new();
     let mut roots = 0;
     let mut pending_start: Option<(usize, String)> = None;
+    let mut pending_attrs: Vec<Attr> = Vec::new();
     for tok in xmlparser::Tokenizer::from(doc) {
         let tok = tok.map_err(|e| e.to_string())?;
         match tok {
+            xmlparser::Token::Attribute { prefix, local, value, span } => {
+                let name = if prefix.is_empty() { local.as_str().to_owned() } else { format!("{}:{}", prefix.as_str(), local.as_str()) };
+                // well-formedness constraint: unique attribute names per start tag
+                if pending_attrs.iter().any(|a| a.name == name) {
+                    return Err(format!("attribute {name} appears twice in one start tag"));
+                }
+                pending_attrs.push(Attr { name, span: (span.start(), span.end()), value: (value.start(), value.end()) });
+            }
             xmlparser::Token::ElementStart { local, prefix, span } => {
                 if stack.is_empty() {
                     roots += 1;
@@ -49,7 +68,7 @@ fn parse_tree(doc: &str) -> Result<Vec<Elem>, String> {
                     if let Some(&p) = stack.last() {
                         out[p].children += 1;
                     }
-                    out.push(Elem { name, span: (s, 0), inner: (span.end(), 0), depth: stack.len(), children: 0, texts: Vec::new() });
+                    out.push(Elem { name, span: (s, 0), inner: (span.end(), 0), depth: stack.len(), children: 0, texts: Vec::new(), attrs: std::mem::take(&mut pending_attrs) });
                     stack.push(out.len() - 1);
                 }
                 xmlparser::ElementEnd::Empty => {
@@ -57,7 +76,7 @@ fn parse_tree(doc: &str) -> Result<Vec<Elem>, String> {
                     if let Some(&p) = stack.last() {
                         out[p].children += 1;
                     }
-                    out.push(Elem { name, span: (s, span.end()), inner: (span.end(), span.end()), depth: stack.len(), children: 0, texts: Vec::new() });
+                    out.push(Elem { name, span: (s, span.end()), inner: (span.end(), span.end()), depth: stack.len(), children: 0, texts: Vec::new(), attrs: std::mem::take(&mut pending_attrs) });
                 }
                 xmlparser::ElementEnd::Close(prefix, local) => {
                     let i = stack.pop().ok_or("close tag without open element")?;
@@ -152,6 +171,32 @@ fn mutants(doc: &str, tree: &[Elem]) -> Vec<Mutant> {
             m.push(Mutant { kind: "rename-root", label: "rename-root".into(), doc: doc.replace(&format!("<{}", e.name), "<Xq9").replace(&format!("</{}>", e.name), "</Xq9>").into_bytes() });
             m.push(Mutant { kind: "unknown-child", label: "unknown-child-in-root".into(), doc: splice(doc, (e.inner.0, e.inner.0), "<Xq9>1</Xq9>") });
         }
+        // attributes of the start tag
+        for (ai, at) in e.attrs.iter().enumerate() {
+            let whole = &doc[at.span.0..at.span.1];
+            let val = &doc[at.value.0..at.value.1];
+            let is_ns = at.name == "xmlns" || at.name.starts_with("xmlns:");
+            m.push(Mutant { kind: "attr-duplicate", label: format!("attr-duplicate#{ei}<{} {}>", e.name, at.name), doc: splice(doc, (at.span.1, at.span.1), &format!(" {whole}")) });
+            if !val.contains('\'') {
+                m.push(Mutant { kind: "attr-quote-style", label: format!("attr-quote#{ei}<{} {}>", e.name, at.name), doc: splice(doc, at.span, &format!("{}='{val}'", at.name)) });
+            }
+            m.push(Mutant { kind: "attr-blanks", label: format!("attr-blanks#{ei}<{} {}>", e.name, at.name), doc: splice(doc, at.span, &format!("{} = \"{val}\"", at.name)) });
+            if ai + 1 < e.attrs.len() {
+                let nx = &e.attrs[ai + 1];
+                let swapped = format!("{}{}{}", &doc[nx.span.0..nx.span.1], &doc[at.span.1..nx.span.0], whole);
+                m.push(Mutant { kind: "attr-reorder", label: format!("attr-reorder#{ei}<{} {}>", e.name, at.name), doc: splice(doc, (at.span.0, nx.span.1), &swapped) });
+            }
+            if !is_ns {
+                if let Some(c) = val.chars().next() {
+                    if c != '&' {
+                        m.push(Mutant { kind: "attr-char-ref", label: format!("attr-charref#{ei}<{} {}>", e.name, at.name), doc: splice(doc, at.value, &format!("&#{};{}", c as u32, &val[c.len_utf8()..])) });
+                    }
+                }
+                // the blank before the attribute goes with it
+                m.push(Mutant { kind: "attr-remove", label: format!("attr-remove#{ei}<{} {}>", e.name, at.name), doc: splice(doc, (at.span.0 - 1, at.span.1), "") });
+                m.push(Mutant { kind: "attr-suffix", label: format!("attr-suffix#{ei}<{} {}>", e.name, at.name), doc: splice(doc, (at.value.1, at.value.1), "abc") });
+            }
+        }
         // text nodes of leaf elements
         if e.children == 0 && e.texts.len() == 1 {
             let (ts, te) = e.texts[0];
@@ -216,6 +261,7 @@ fn judge_mutants(a: &mut Acc, order: u64, d: &dyn XmlDriver, which: &str, alts: 
                 a.nontrivial(fnv(id().as_bytes()));
                 a.outcome(&format!("{}: ILL-FORMED ACCEPTED", mu.kind));
                 let fp = match mu.kind {
+                    "attr-duplicate" => "C13/accepts-ill-formed/attribute-repeated-in-a-start-tag",
                     "truncate" => "C13/accepts-ill-formed/truncated-document",
                     "second-root" => "C13/accepts-ill-formed/content-after-root",
                     "trailing-text" | "leading-text" => "C13/accepts-ill-formed/text-outside-root",
@@ -223,6 +269,27 @@ fn judge_mutants(a: &mut Acc, order: u64, d: &dyn XmlDriver, which: &str, alts: 
                 };
                 a.fail(fp, order, id(), format!("{} accepted a document that is not well-formed: {mtext:?}", d.name()), json!({"type": d.name()}));
             }
+            (Decoded::Same, "attr-quote-style" | "attr-blanks" | "attr-reorder" | "attr-char-ref") => {
+                a.nontrivial(fnv(id().as_bytes()));
+                a.outcome(&format!("{}: same value", mu.kind));
+            }
+            (Decoded::Differs { got, want }, "attr-quote-style" | "attr-blanks" | "attr-reorder" | "attr-char-ref") => {
+                a.nontrivial(fnv(id().as_bytes()));
+                a.outcome(&format!("{}: VALUE CHANGED", mu.kind));
+                a.fail("C13/meaning/attribute-spelling-changes-the-value", order, id(), format!("{mtext:?} has the same XML meaning as the original but decodes to {got} instead of {want}"), json!({"type": d.name(), "document": mtext}));
+            }
+            (Decoded::Same, "attr-remove") => {
+                a.nontrivial(fnv(id().as_bytes()));
+                a.outcome("attr-remove: ACCEPTED WITH THE REMOVED VALUE DEFAULTED");
+                a.fail("C13/strictness/missing-attribute-defaulted", order, id(), format!("{} accepted {mtext:?} (attribute removed) and still decoded the original value", d.name()), json!({"type": d.name()}));
+            }
+            (Decoded::Differs { .. }, "attr-remove") => a.outcome("attr-remove: different value"),
+            (Decoded::Same, "attr-suffix") => {
+                a.nontrivial(fnv(id().as_bytes()));
+                a.outcome("attr-suffix: SUFFIX IGNORED");
+                a.fail("C13/strictness/attribute-value-ignored", order, id(), format!("{} accepted {mtext:?} (attribute value followed by 'abc') and decoded the original value", d.name()), json!({"type": d.name()}));
+            }
+            (Decoded::Differs { .. }, "attr-suffix") => a.outcome("attr-suffix: different value"),
             (Decoded::Same, "cdata" | "cdata-partial" | "comment-split" | "pi-split" | "numeric-char-ref" | "hex-char-ref" | "reorder-siblings") => {
                 a.nontrivial(fnv(id().as_bytes()));
                 a.outcome(&format!("{}: same value", mu.kind));
